@@ -851,24 +851,43 @@ func isNot(e ast.Expr) bool {
 // loop: counted loops `for i := N - 1; i >= 0; i--` and `for i := 0; i < N; i++`.
 func (it *vmInterp) loop(hp *HandlerPath, a Atom) {
 	ev := VMEvent{Kind: "loop", Node: a.Node}
-	if fs, ok := a.Loop.(*ast.ForStmt); ok {
-		if as, ok := fs.Init.(*ast.AssignStmt); ok && len(as.Rhs) == 1 {
-			if be, ok := Unparen(as.Rhs[0]).(*ast.BinaryExpr); ok && be.Op == token.SUB {
-				if tv, ok := it.info.Types[be.Y]; ok && tv.Value != nil && tv.Value.ExactString() == "1" {
-					if c, ok := fs.Cond.(*ast.BinaryExpr); ok && c.Op == token.GEQ {
-						if ids, ok := fs.Post.(*ast.IncDecStmt); ok && ids.Tok == token.DEC {
-							ev.Count = ExprStr(be.X)
-							ev.CountOrigin = it.origin(hp, be.X)
-						}
+	// trip count: whatever the loop's idiom, when it is one opaque quantity (a popped count,
+	// the Size field of the call constant, the length of a slice made with it)
+	symExpr := map[string]ast.Expr{}
+	env := &AffEnv{Info: it.info, Vars: map[types.Object]Aff{}}
+	env.Sym = func(e ast.Expr) (string, bool) {
+		switch x := Unparen(e).(type) {
+		case *ast.SelectorExpr:
+			if sel := it.info.Selections[x]; sel != nil && sel.Kind() == types.FieldVal {
+				k := ExprStr(x)
+				symExpr[k] = x
+				return k, true
+			}
+		case *ast.Ident:
+			if v, ok := it.info.Uses[x].(*types.Var); ok && v != nil {
+				symExpr[x.Name] = x
+				return x.Name, true
+			}
+		}
+		return "", false
+	}
+	lenOf := func(e ast.Expr) (Aff, bool) {
+		if id, ok := Unparen(e).(*ast.Ident); ok {
+			if o := it.vars[it.info.Uses[id]]; o != nil && o.Expr != nil {
+				if c, ok := Unparen(o.Expr).(*ast.CallExpr); ok && len(c.Args) >= 2 {
+					if fid, ok := c.Fun.(*ast.Ident); ok && fid.Name == "make" {
+						return env.Eval(c.Args[1])
 					}
 				}
-			} else if tv, ok := it.info.Types[as.Rhs[0]]; ok && tv.Value != nil && tv.Value.ExactString() == "0" {
-				if c, ok := fs.Cond.(*ast.BinaryExpr); ok && c.Op == token.LSS {
-					if ids, ok := fs.Post.(*ast.IncDecStmt); ok && ids.Tok == token.INC {
-						ev.Count = ExprStr(c.Y)
-						ev.CountOrigin = it.origin(hp, c.Y)
-					}
-				}
+			}
+		}
+		return Aff{}, false
+	}
+	if cl := AnalyseCountedLoop(it.info, env, a.Loop, lenOf); cl.OK && cl.Trips.C == 0 && len(cl.Trips.T) == 1 {
+		for sym, c := range cl.Trips.T {
+			if ex := symExpr[sym]; c == 1 && ex != nil {
+				ev.Count = ExprStr(ex)
+				ev.CountOrigin = it.origin(hp, ex)
 			}
 		}
 	}
